@@ -105,7 +105,8 @@ func blockReturnsError(b *ssa.BasicBlock, depth int) bool {
 	switch t := last.(type) {
 	case *ssa.Return:
 		if len(t.Results) == 0 {
-			return false
+			// a function without results: leaving it is all it can do
+			return b.Parent().Signature.Results().Len() == 0
 		}
 		for _, v := range expandValues(t.Results[len(t.Results)-1]) {
 			if isNilConst(v) {
